@@ -101,9 +101,6 @@ def run_case(c):
     sink, source = dut.fifo.sink, dut.fifo.source
     has_fsm = c["bypass"]
 
-    enc = dict(dut.fifo.fsm.encoding) if has_fsm else {}
-    assert not has_fsm or (enc.get("PUMP_PRECONVERTER"), enc.get("DRAIN_POSTCONVERTER")) == (2, 3), enc
-
     def driver():
         yield "passive"
         valid = ready = 0
@@ -199,7 +196,8 @@ def run_case(c):
             unread[a] = False
     st = dict(words=len(got), total=total, dram_writes=len(stub.accepted[0]), dram_reads=len(stub.accepted[1]), wraps=max(0, wraps - 1),
               fsm_states=sorted(state["fsm_states"]), fsm_transitions=state["trans"], roundtrips=state["roundtrips"], cycles=cycles)
-    pump = bool(set(st["fsm_states"]) & {2, 3})
+    enc = dict(dut.fifo.fsm.encoding) if has_fsm else {}
+    pump = bool(set(st["fsm_states"]) & {enc.get("PUMP_PRECONVERTER"), enc.get("DRAIN_POSTCONVERTER")})
     for x in v:
         x["bypass"] = c["bypass"]
         x["ratio"] = ratio
